@@ -263,8 +263,9 @@ static void dubins(Report & rep, long n)
     const double R = r.loguni(1e-2, 1e2);
     // targets over the plane incl. borders of the word families (d = 4R, 2R), coincident circles, same pose
     double x, y, th;
-    const int kind = int(idx % 8);
+    const int kind = int(idx % 10);
     th             = r.range(-3.14159, 3.14159);
+    double pert    = 0;  // kinds 8/9: relative distance from the pure-arc configuration
     if (kind == 0) {
       x = R * r.range(-8, 8);
       y = R * r.range(-8, 8);
@@ -274,11 +275,24 @@ static void dubins(Report & rep, long n)
     } else if (kind == 2) {
       x = R * 100 * r.sym();
       y = R * 100 * r.sym();
-    } else if (kind == 3) {  // pure rotation in place about the left/right circle (coincident circles)
-      const double sg = r.coin() ? 1 : -1, phi = std::abs(th);
-      th = sg * phi;
+    } else if (kind == 3 || kind == 8 || kind == 9) {
+      // a pure left/right arc of angle phi in (0, 2 pi) (coincident circles; reflex arcs have a heading of the opposite sign);
+      // kind 8: the same target moved off the circle by 1e-13 ... 1e-3 R (nearly coincident circles, general branch);
+      // kind 9: heading perturbed instead
+      const double sg = r.coin() ? 1 : -1, phi = r.coin(0.5) ? r.range(0.01, 3.14159) : r.range(3.14159, 6.28);
+      th = std::remainder(sg * phi, 6.283185307179586);
       x  = R * std::sin(phi);
       y  = sg * R * (1 - std::cos(phi));
+      if (kind == 8) {
+        const double del = R * r.loguni(1e-13, 1e-3), ang = r.range(-3.14159, 3.14159);
+        x += del * std::cos(ang);
+        y += del * std::sin(ang);
+        pert = del / R;
+      } else if (kind == 9) {
+        const double dth = (r.coin() ? 1 : -1) * r.loguni(1e-13, 1e-3);
+        th   = std::remainder(th + dth, 6.283185307179586);
+        pert = std::abs(dth);
+      }
     } else if (kind == 4) {
       x  = R * 4 * std::cos(r.range(-3, 3));
       y  = R * 4 * std::sin(r.range(-3, 3));
@@ -336,7 +350,13 @@ static void dubins(Report & rep, long n)
       }
     }
     rep.count(validated ? "C14.dubins.oracle_words_validated" : "C14.dubins.no_oracle_word", validated ? validated : 1);
-    if (validated) {
+    // The Dubins distance is discontinuous across the pure-arc configurations (a target 1e-10 R off the arc, on the
+    // wrong side, needs an extra full turn). Both the library's end pose and the oracle's word validation are exact only
+    // to ~1e-9, so for targets closer than 1e-7 R to such a configuration (but not on it) both "phi" and "phi + 2 pi"
+    // are answers within tolerance: the length is not judged there (counted).
+    const bool near_discontinuity = pert > 0 && pert < 1e-7;
+    if (near_discontinuity) rep.count("C14.dubins.length_not_judged_near_discontinuity");
+    if (validated && !near_discontinuity) {
       const L len = c.t_max();
       rep.judge(T + ".length_not_longer_than_best_word", st, (len - best) / std::max<L>(best, L(R)), 1e-9L, det);
       rep.judge(T + ".length_not_shorter_than_best_word", st, (best - len) / std::max<L>(best, L(R)), 1e-9L, det);
